@@ -90,7 +90,7 @@ def gen_case(rnd, idx=None):
         want7ffd = rnd.choice((0, 1, 3, 4, 6, 7, 16, 17, 23, 8))
         opts += ['--7ffd', str(want7ffd)]
         if rnd.random() < 0.6:
-            banks = sorted(rnd.sample((0, 1, 3, 4, 6, 7), rnd.randrange(1, 4)))
+            banks = rnd.sample((0, 1, 3, 4, 6, 7), rnd.randrange(1, 5))        # in any order on the command line
             opts += ['--banks', ','.join(map(str, banks))]
         else:
             banks = [0, 1, 3, 4, 6, 7]
